@@ -31,6 +31,7 @@ func (c *Check) c07H() {
 		o.Rule = strings.Replace(o.Rule, "C16-R5", "C07-R10", 1)
 	}
 
+	c.factorListFilledPerColumn("C07-R11")
 	sp := c.anchorFn("C07-R9", "internal/measurement", "ScaleProfiles")
 	scale := p.Func("internal/measurement", "Scale")
 	if sp == nil || scale == nil {
